@@ -490,6 +490,43 @@ def r3_one_outstanding(ctx, F):
                           good='`awaiting` becomes Some(request id just sent)',
                           bad='%s: after sending request id %r the client waits for a different id' % (path, sent_id),
                           span=s_.span)
+            # every accepted reply is one completed operation: each new client state counts one more than the old
+            # one (the request ids and the put/get decision are derived from the counter, so a reply that leaves
+            # it where it was makes the next request reuse an id, or lets the client put more often than put_count)
+            oc_idx = None
+            for var in F.adt(state_adt)['variants']:
+                if var['name'] == 'Client':
+                    for fi, fld in enumerate(var['fields']):
+                        if fld['name'] == 'op_count':
+                            oc_idx = fi
+            if oc_idx is None:
+                raise AnchorMissing('%s: Client.op_count field' % state_adt)
+
+            def is_old_plus_one(v, depth=0):
+                v = noref(v)
+                parts = None
+                if v.kind == 'call' and b.call_at(v.key) is not None and b.call_at(v.key).is_('Add::add') and \
+                        not v.fields():
+                    parts = [b.val(a) for a in b.call_at(v.key).args[:2]]
+                elif v.kind == 'bin' and v.key[0] in ('Add', 'AddWithOverflow', 'AddUnchecked'):
+                    parts = [v.key[1], v.key[2]]
+                if parts is None or len(parts) != 2:
+                    return False
+                parts = [noref(resolve_arg(b, x)) for x in parts]
+                one = [x for x in parts if x.kind == 'const' and x.key == 1]
+                old = [x for x in parts if '.op_count' in x.fields() and x.kind in ('arg', 'call')]
+                return len(one) == 1 and len(old) == 1
+            for (i, a) in stores:
+                ops = a.key[3]
+                okc = oc_idx < len(ops) and is_old_plus_one(ops[oc_idx])
+                ctx.check(okc, rule, 'op-count-advances@%s' % ('send' if any(i in b.reach([s_.target]) for s_ in sends)
+                                                                else 'final'), b,
+                          good='the new client state counts one operation more than the old one',
+                          bad='%s stores a client state whose op_count is %r, not the old count plus one: the next '
+                              'request reuses the id of this one (the ids are derived from the count), so a late '
+                              'reply to the old request is taken for the answer to the new one' %
+                              (path, ops[oc_idx] if oc_idx < len(ops) else None),
+                          span=stores_st[i].get('span'))
             # GetOk: clears awaiting, sends nothing
             nones = [(i, a) for (i, a) in stores if a.key[3] and a.key[3][0].kind == 'agg' and a.key[3][0].key[2] == 'None']
             ok = False
